@@ -67,6 +67,7 @@ func runC16(c *Ctx, r *Report) {
 	importFoundation(c, r, "C16", "eof-chain")
 	importFoundation(c, r, "C16", "queue")
 	importFoundation(c, r, "C16", "read-loop")
+	importFoundation(c, r, "C16", "netconf-reader")
 	r.Rule("C16/orderly-close", "no transport makes its Close abortive (SO_LINGER untouched): bytes accepted by Write reach the peer", 1)
 	checkNoAbortiveClose(c, r, "C16/orderly-close")
 	r.Rule("C16/child-lifetime", "the system transport ties the life of its ssh child to Close only (no SysProcAttr, no CommandContext)", 1)
